@@ -426,6 +426,49 @@ def differential(item):
     return n, bad
 
 
+def file_session(item):
+    """the file API of the self-hosted grammar: one path is rewritten with a sequence of grammar texts
+    (accepted and rejected ones); after every rewrite `grammar_model_from_file(path)` must say what
+    `grammar_model_from_str(<current content>)` says — accepted / rejected, and the same rule names"""
+    import os
+    import random
+    import shutil
+    import tempfile
+    from textx.exceptions import TextXSyntaxError
+    name, pre, post, seed_ = item
+    rnd = random.Random(seed_)
+    toks = ["'a'", '"b"', '/x/', 'a', 'B', 'ID', '=', '+=', '[', ']', '(', ')', '|', '*', '+', '?', '#', '-', ',',
+            ':', ';', ' ', '\n', 'eolterm', '1', '_']
+    _, _, mmb = live_parsers()
+    tmp = tempfile.mkdtemp(prefix='c24f_')
+    path = os.path.join(tmp, 'g.tx')
+    bad = []
+    n = 0
+
+    def via(fn, arg):
+        try:
+            m = fn(arg)
+            return ('ok', [r.name for r in m.rules])
+        except TextXSyntaxError:
+            return ('rejected', None)
+        except Exception as e:  # noqa
+            return ('error', type(e).__name__)
+    try:
+        for step in range(10):
+            fill = ''.join(rnd.choice(toks) for _ in range(rnd.randint(0, 3)))
+            text = pre + fill + post if step % 3 else 'R%d: %s;' % (step, "'x'")
+            with open(path, 'w') as f:
+                f.write(text)
+            a = via(mmb.grammar_model_from_file, path)
+            b = via(mmb.grammar_model_from_str, text)
+            n += 2
+            if a != b and not bad:
+                bad.append({'text': text, 'step': step, 'from_file': a, 'from_str': b, 'template': name, 'seed': seed_})
+        return n, bad
+    finally:
+        shutil.rmtree(tmp, ignore_errors=True)
+
+
 def history_obligation(item):
     """an obligation in a process whose first compiled grammar is another one (runs in a fresh process)"""
     HISTORY_ROTATION[0] = item[0]
@@ -508,6 +551,18 @@ def main():
         for b in bad:
             chk.cov['model_mismatches'] += 1
             chk.sample({'differential_mismatch': b}, limit=20)
+    fs_items = [(n_, p_, q_, chk.seed * 77 + i) for i, (n_, p_, q_) in enumerate(templates[:8])]
+    for it, (st, r, secs) in zip(fs_items, pmap(file_session, fs_items)):
+        if st != 'ok':
+            chk.harness_error(r)
+            continue
+        n_, bad_ = r
+        chk.cov['traces_validated_against_impl'] += n_
+        for b in bad_:
+            chk.violation('grammar file rewritten %d times: grammar_model_from_file says %s, grammar_model_from_str on '
+                          'the same content %r says %s' % (b['step'], b['from_file'], b['text'], b['from_str']),
+                          {'file_session': [it[0], it[1], it[2], it[3]], 'text': b['text']})
+    chk.cov['bounds']['file_sessions'] = '8 templates x 10 rewrites of one grammar file (file API vs string API of textx.tx)'
     chk.cov['distinct_nontrivial'] = nontrivial
     chk.cov['obligations'] = len(items)
     chk.cov['discharged'] = holds
@@ -520,6 +575,9 @@ def main():
 
 
 def _replay(data):
+    if 'file_session' in data:
+        n_, bad_ = file_session(tuple(data['file_session']))
+        return bool(bad_), bad_[:1]
     HISTORY_ROTATION[0] = data.get('history_rotation', 0)
     text = data['text']
     ra, rb = real_A(text), real_B(text)
